@@ -228,6 +228,17 @@ func (s *Server) verifyConsensusFieldMain(cp *params.CaravelParams, seedHeader *
 		logging.Error("VerifyHeader failed. Get consensus data failed.", err)
 		return errInvalidConsensusData
 	}
+	// The committee sizes are parameters of the protocol version in force, never a choice of the
+	// block's author: the thresholds a header declares must be exactly those of cp (an honest proposer
+	// copies them from the same parameters in Prepare). Otherwise a header could pick its own quorum
+	// (ValidatorThreshold = 1 needs no vote at all) or turn every member into a proposer.
+	if consensusData.ProposerThreshold != cp.ProposerThreshold ||
+		consensusData.ValidatorThreshold != cp.ValidatorThreshold ||
+		consensusData.CertValThreshold != cp.CertValThreshold {
+		logging.Error("VerifyHeader failed. Declared thresholds differ from the protocol's.", "Round", consensusData.Round,
+			"proposerTh", consensusData.ProposerThreshold, "validatorTh", consensusData.ValidatorThreshold, "certValTh", consensusData.CertValThreshold)
+		return errInvalidConsensusData
+	}
 	// get block proposer's public key and VRF public key
 	pubKey, err := consensusData.GetPublicKey()
 	if err != nil {
